@@ -96,6 +96,8 @@ func LoadEngine(tier string) (*Engine, error) {
 	e.moduleInits = []*ssa.Function{e.HarnessPkg.Func("init")}
 	e.registerIntrinsics(HarnessPkg)
 	e.registerEnvIntrinsics(HarnessPkg)
+	// small pure library functions executed from their real SSA
+	e.AllowReal = append(e.AllowReal, "strconv.FormatBool", "strconv.ParseBool", "strconv.AppendBool")
 	registerModels(e)
 	return e, nil
 }
